@@ -3,3 +3,4 @@ pub mod rng;
 pub mod spy;
 pub mod stats;
 pub mod refmodel;
+pub mod runner;
